@@ -10,7 +10,7 @@ from .. import env
 from .. import gen, build, mcase, monitors
 
 ID = "C09"
-CASES = {"quick": 8000, "thorough": 200000}
+CASES = {"quick": 16000, "thorough": 200000}
 MIN_CASES_PER_SHARD = 40
 CASE_TIMEOUT = 40
 RULE = ("one case = generated map x trace x configuration (all families, non-emitting on/off, widths, avoid_goingback on/off, cut-offs incl. "
